@@ -322,6 +322,9 @@ var rePosLine = regexp.MustCompile(`^(\S+?\.go):(\d+):(\d+): `)
 
 // C14 runs the bad-input check.
 func C14(c *core.Ctx) {
+	if c.Replay != "" {
+		replayUnsupported(c)
+	}
 	nSoup, maxInj, keep2 := 150, 2, 40
 	if c.Thorough() {
 		nSoup, keep2 = 1500, 6
